@@ -17,7 +17,8 @@ from ..mqttfake import FakeClient, topic_matches
 from ..vloop import VLoop
 
 MOD = __name__
-PREFIXES = [("p-out", "p"), ("a/b/out", "a/b"), ("mygateway1-out", "mygateway1-in"), ("x/y/z", "x/y/z/w"), ("/lead/out", "/lead/in"), ("t/", "u/")]
+PREFIXES = [("p-out", "p"), ("a/b/out", "a/b"), ("mygateway1-out", "mygateway1-in"), ("x/y/z", "x/y/z/w"), ("/lead/out", "/lead/in"), ("t/", "u/"),
+            ("home/(attic)/[gw]{1}|a.*?^$-out", "home/(attic)/[gw]{1}|a.*?^$-in")]
 PAYLOADS = ["", "x", "a;b", ";", "a;b;c", "a/b", "é", "1", "a b", "#", "+"]
 _LOOP: VLoop | None = None
 
@@ -110,7 +111,9 @@ def job_mapping(j):
 
             def bad(kind, what, f=None, p=None):
                 semi = p is not None and ";" in p
-                viols.append((f"C18|{kind}|semicolon={semi}", f"[in={in_prefix!r} out={out_prefix!r}] {what}", {"mode": "mapping", "in": in_prefix, "out": out_prefix, "fields": list(f) if f else None, "payload": p}))
+                # the replay re-runs every write of this job up to the failing message (one transport object, in order)
+                upto = [list(h) for h in heads[: heads.index(f) + 1]] if f in heads else [list(h) for h in heads]
+                viols.append((f"C18|{kind}|semicolon={semi}", f"[in={in_prefix!r} out={out_prefix!r}] {what}", {"mode": "mapping", "in": in_prefix, "out": out_prefix, "heads": upto, "payload": p}))
 
             if k != "ok" or k2 != "ok" or fake is None:
                 bad("connect", f"connect gave {k} {v!r} / {k2} {v2!r}")
@@ -425,7 +428,7 @@ def run(ctx: core.Ctx) -> core.Report:
 
 def replay(data: dict) -> dict:
     if data.get("mode") == "mapping":
-        heads = [tuple(data["fields"])] if data.get("fields") else field_grid(True)[:3]
+        heads = [tuple(h) for h in data["heads"]] if data.get("heads") else field_grid(True)[:3]
         n, v = job_mapping((data["in"], data["out"], heads))
         return {"violated": bool(v), "violations": sorted({k for k, _, _ in v})}
     if data.get("mode") == "lifecycle":
